@@ -232,6 +232,15 @@ trait DeduplicationDataInterface: Sized {
 //@ end
 }
 
+// R7 outlines of two iterator chains in process_chunks: assumed to be the projections they spell
+#[verifier::external_body]
+fn vx_chunk_hashes(chunks: &[Chunk]) -> (r: Vec<MerkleHash>)
+    ensures r@ == hashes(chunks@)
+{ Vec::from_iter(chunks.iter().map(|c| c.hash)) }
+#[verifier::external_body]
+fn vx_extend_hash_len(v: &mut Vec<(MerkleHash, usize)>, chunks: &[Chunk])
+    ensures final(v)@ == old(v)@ + hl_view(chunks@)
+{ v.extend(chunks.iter().map(|c| (c.hash, c.data.len()))); }
 // R7 outline: `hash_is_global_dedup_eligible` (mdb_shard) only gates an optional background query; arbitrary
 #[verifier::external_body] fn hash_is_global_dedup_eligible(h: &MerkleHash) -> bool { unimplemented!() }
 
@@ -246,6 +255,7 @@ spec fn lookup_ok(m: Map<MerkleHash, usize>, nd: Seq<MerkleHash>) -> bool {
 spec fn ire_ok(ire: Seq<usize>, fi: Seq<FileDataSequenceEntry>) -> bool {
     &&& forall|j: int| 0 <= j < ire.len() ==> (#[trigger] ire[j]) < fi.len() && fi[ire[j] as int].cas_hash == zero_hash()
     &&& forall|i: int| 0 <= i < fi.len() && (#[trigger] fi[i]).cas_hash == zero_hash() ==> exists|j: int| 0 <= j < ire.len() && #[trigger] ire[j] == i
+    &&& forall|j1: int, j2: int| 0 <= j1 < j2 < ire.len() ==> (#[trigger] ire[j1]) < (#[trigger] ire[j2])
 }
 spec fn metrics_ok(m: DeduplicationMetrics, fed: Seq<MerkleHash>) -> bool {
     &&& /*C14*/ m.total_bytes == sum_len(fed) && m.total_chunks == fed.len()
@@ -316,6 +326,118 @@ proof fn lemma_ire_push(ire: Seq<usize>, fi: Seq<FileDataSequenceEntry>, e: File
             }
         }
     }
+}
+
+
+// ---- cutting a xorb: every zero-hash segment is re-pointed at the new xorb X, whose chunk list is the old new_data -------------------
+spec fn patched(a: FileDataSequenceEntry, b: FileDataSequenceEntry, x: MerkleHash) -> bool {
+    &&& b.cas_flags == a.cas_flags && b.unpacked_segment_bytes == a.unpacked_segment_bytes
+    &&& b.chunk_index_start == a.chunk_index_start && b.chunk_index_end == a.chunk_index_end
+    &&& (b.cas_hash == a.cas_hash || (a.cas_hash == zero_hash() && b.cas_hash == x))
+}
+proof fn lemma_cut_flatten(fi0: Seq<FileDataSequenceEntry>, fi1: Seq<FileDataSequenceEntry>, nd0: Seq<MerkleHash>, x: MerkleHash)
+    requires fi0.len() == fi1.len(), x != zero_hash(), xorb_chunks(x) == nd0, sum_len(nd0) <= u32::MAX,
+        forall|i: int| 0 <= i < fi0.len() ==> patched(#[trigger] fi0[i], fi1[i], x) && fi1[i].cas_hash != zero_hash() && seg_ok(fi0[i], nd0),
+    ensures flatten(fi1, Seq::<MerkleHash>::empty()) == flatten(fi0, nd0),
+        forall|i: int| 0 <= i < fi1.len() ==> seg_ok(#[trigger] fi1[i], Seq::<MerkleHash>::empty()),
+    decreases fi0.len()
+{
+    let e = Seq::<MerkleHash>::empty();
+    if fi0.len() > 0 {
+        let n = fi0.len() - 1;
+        assert forall|i: int| 0 <= i < fi0.drop_last().len() implies patched(#[trigger] fi0.drop_last()[i], fi1.drop_last()[i], x)
+            && fi1.drop_last()[i].cas_hash != zero_hash() && seg_ok(fi0.drop_last()[i], nd0) by { assert(fi0.drop_last()[i] == fi0[i]); }
+        lemma_cut_flatten(fi0.drop_last(), fi1.drop_last(), nd0, x);
+        assert(patched(fi0[n], fi1[n], x));
+        assert(seg_src(fi1[n], e) == seg_src(fi0[n], nd0));
+        assert(seg_den(fi1[n], e) == seg_den(fi0[n], nd0));
+        assert forall|i: int| 0 <= i < fi1.len() implies seg_ok(#[trigger] fi1[i], e) by {
+            assert(patched(fi0[i], fi1[i], x));
+            assert(seg_src(fi1[i], e) == seg_src(fi0[i], nd0));
+            if i < n { assert(fi1.drop_last()[i] == fi1[i]); }
+        }
+    }
+}
+
+
+// ---- appending one new chunk hash h to the xorb under construction ---------------------------------------------------------------
+proof fn lemma_nd_push(fi: Seq<FileDataSequenceEntry>, nd: Seq<MerkleHash>, h: MerkleHash)
+    requires forall|i: int| 0 <= i < fi.len() ==> seg_ok(#[trigger] fi[i], nd), sum_len(nd) + len_of(h) <= u32::MAX,
+    ensures forall|i: int| 0 <= i < fi.len() ==> seg_ok(#[trigger] fi[i], nd.push(h)) && seg_den(fi[i], nd.push(h)) == seg_den(fi[i], nd),
+        flatten(fi, nd.push(h)) == flatten(fi, nd),
+    decreases fi.len()
+{
+    lemma_sum_len_push(nd, h);
+    assert forall|i: int| 0 <= i < fi.len() implies seg_ok(#[trigger] fi[i], nd.push(h)) && seg_den(fi[i], nd.push(h)) == seg_den(fi[i], nd) by {
+        if fi[i].cas_hash == zero_hash() {
+            assert(nd.push(h).subrange(fi[i].chunk_index_start as int, fi[i].chunk_index_end as int) =~= nd.subrange(fi[i].chunk_index_start as int, fi[i].chunk_index_end as int));
+        }
+    }
+    if fi.len() > 0 {
+        assert forall|i: int| 0 <= i < fi.drop_last().len() implies seg_ok(#[trigger] fi.drop_last()[i], nd) by { assert(fi.drop_last()[i] == fi[i]); }
+        lemma_nd_push(fi.drop_last(), nd, h);
+    }
+}
+spec fn grown(last: FileDataSequenceEntry, h: MerkleHash) -> FileDataSequenceEntry {
+    FileDataSequenceEntry { cas_hash: last.cas_hash, cas_flags: last.cas_flags,
+        unpacked_segment_bytes: (last.unpacked_segment_bytes + len_of(h)) as u32,
+        chunk_index_start: last.chunk_index_start, chunk_index_end: (last.chunk_index_end + 1) as u32 }
+}
+// case A: the last segment is the open zero-hash run ending at |nd|; it grows by the new chunk
+proof fn lemma_new_chunk_extend(fi: Seq<FileDataSequenceEntry>, nd: Seq<MerkleHash>, h: MerkleHash)
+    requires fi.len() > 0, fi.last().cas_hash == zero_hash(), fi.last().chunk_index_end == nd.len(),
+        forall|i: int| 0 <= i < fi.len() ==> seg_ok(#[trigger] fi[i], nd), sum_len(nd) + len_of(h) <= u32::MAX, nd.len() < u32::MAX,
+    ensures
+        fi.last().unpacked_segment_bytes + len_of(h) <= u32::MAX,
+        forall|i: int| 0 <= i < fi.len() ==> seg_ok(#[trigger] fi.update(fi.len() - 1, grown(fi.last(), h))[i], nd.push(h)),
+        flatten(fi.update(fi.len() - 1, grown(fi.last(), h)), nd.push(h)) == flatten(fi, nd).push(h),
+{
+    let l = fi.last(); let g = grown(l, h); let nd2 = nd.push(h); let fi2 = fi.update(fi.len() - 1, g);
+    lemma_nd_push(fi, nd, h);
+    lemma_sum_len_push(nd, h);
+    lemma_sum_len_subrange(nd, l.chunk_index_start as int, l.chunk_index_end as int);
+    assert(seg_den(g, nd2) =~= seg_den(l, nd).push(h));
+    lemma_sum_len_push(seg_den(l, nd), h);
+    assert(fi2.drop_last() =~= fi.drop_last());
+    assert forall|i: int| 0 <= i < fi.drop_last().len() implies seg_ok(#[trigger] fi.drop_last()[i], nd) by { assert(fi.drop_last()[i] == fi[i]); }
+    lemma_nd_push(fi.drop_last(), nd, h);
+    assert(flatten(fi2, nd2) == flatten(fi2.drop_last(), nd2) + seg_den(g, nd2));
+    assert(flatten(fi, nd) == flatten(fi.drop_last(), nd) + seg_den(l, nd));
+    assert(flatten(fi.drop_last(), nd) + seg_den(l, nd).push(h) =~= (flatten(fi.drop_last(), nd) + seg_den(l, nd)).push(h));
+    assert forall|i: int| 0 <= i < fi.len() implies seg_ok(#[trigger] fi2[i], nd2) by {
+        if i < fi.len() - 1 { assert(fi2[i] == fi[i]); }
+    }
+}
+// case B: a fresh zero-hash segment [|nd|, |nd|+1) is pushed
+proof fn lemma_new_chunk_push(fi: Seq<FileDataSequenceEntry>, nd: Seq<MerkleHash>, h: MerkleHash, e: FileDataSequenceEntry)
+    requires forall|i: int| 0 <= i < fi.len() ==> seg_ok(#[trigger] fi[i], nd), sum_len(nd) + len_of(h) <= u32::MAX,
+        e.cas_hash == zero_hash(), e.chunk_index_start == nd.len(), e.chunk_index_end == nd.len() + 1, e.unpacked_segment_bytes == len_of(h),
+    ensures
+        forall|i: int| 0 <= i < fi.len() + 1 ==> seg_ok(#[trigger] fi.push(e)[i], nd.push(h)),
+        flatten(fi.push(e), nd.push(h)) == flatten(fi, nd).push(h),
+{
+    let nd2 = nd.push(h);
+    lemma_nd_push(fi, nd, h);
+    lemma_sum_len_push(nd, h);
+    lemma_sum_len_one(nd2, nd.len() as int);
+    assert(seg_den(e, nd2) =~= seq![h]);
+    lemma_flatten_push(fi, nd2, e);
+    assert(flatten(fi, nd) + seq![h] =~= flatten(fi, nd).push(h));
+    assert forall|i: int| 0 <= i < fi.len() + 1 implies seg_ok(#[trigger] fi.push(e)[i], nd2) by {
+        if i < fi.len() { assert(fi.push(e)[i] == fi[i]); }
+    }
+}
+proof fn lemma_lookup_insert(m: Map<MerkleHash, usize>, nd: Seq<MerkleHash>, h: MerkleHash)
+    requires lookup_ok(m, nd), nd.len() < usize::MAX,
+    ensures lookup_ok(m.insert(h, nd.len() as usize), nd.push(h)),
+{
+    let m2 = m.insert(h, nd.len() as usize); let nd2 = nd.push(h);
+    assert forall|k: MerkleHash| m2.contains_key(k) implies (#[trigger] m2[k]) < nd2.len() && nd2[m2[k] as int] == k by {
+        if k != h { assert(m.contains_key(k)); assert(m[k] < nd.len()); }
+    }
+}
+spec fn answers_ok(d: Seq<Option<(usize, FileDataSequenceEntry)>>, hs: Seq<MerkleHash>) -> bool {
+    forall|i: int| 0 <= i < d.len() ==> match #[trigger] d[i] { Some((n, fse)) => truthful(hs.subrange(i, hs.len() as int), n as int, fse), None => true }
 }
 
 //@ extract deduplication/src/file_deduplication.rs struct FileDeduper
@@ -439,6 +561,225 @@ impl<DataInterfaceType: DeduplicationDataInterface> FileDeduper<DataInterfaceTyp
             final(self).file_info@.len() == old(self).file_info@.len(),
             final(self).chunk_hashes == old(self).chunk_hashes, final(self).new_xorbs == old(self).new_xorbs,
             final(self).deduplication_metrics == old(self).deduplication_metrics,
+            final(self).min_spacing_between_global_dedup_queries == old(self).min_spacing_between_global_dedup_queries,
+            final(self).next_chunk_index_elegible_for_global_dedup_query == old(self).next_chunk_index_elegible_for_global_dedup_query,
+//@ body-start
+        let ghost fi0 = self.file_info@; let ghost nd0 = hashes(self.new_data@); let ghost ire0 = self.internally_referencing_entries@;
+        proof { assert(self.new_data@.subrange(0, self.new_data@.len() as int) =~= self.new_data@); }
+//@ loop 1
+            invariant
+                vx_n1 <= ire0.len(), self.internally_referencing_entries@ == ire0, ire_ok(ire0, fi0),
+                self.new_data == old(self).new_data, nd0 == hashes(self.new_data@),
+                self.file_info@.len() == fi0.len(), xorb_hash != zero_hash(),
+                forall|i: int| 0 <= i < fi0.len() ==> patched(#[trigger] fi0[i], self.file_info@[i], xorb_hash) && seg_ok(fi0[i], nd0),
+                forall|j: int| 0 <= j < vx_n1 ==> self.file_info@[(#[trigger] ire0[j]) as int].cas_hash == xorb_hash,
+                forall|j: int| vx_n1 <= j < ire0.len() ==> self.file_info@[(#[trigger] ire0[j]) as int].cas_hash == zero_hash(),
+                self.new_data_size == old(self).new_data_size, self.new_data_hash_lookup == old(self).new_data_hash_lookup,
+                self.chunk_hashes == old(self).chunk_hashes, self.new_xorbs == old(self).new_xorbs,
+                self.deduplication_metrics == old(self).deduplication_metrics,
+                self.min_spacing_between_global_dedup_queries == old(self).min_spacing_between_global_dedup_queries,
+                self.next_chunk_index_elegible_for_global_dedup_query == old(self).next_chunk_index_elegible_for_global_dedup_query,
+            decreases ire0.len() - vx_n1,
+//@ loop 2
+                invariant
+                    vx_n2 <= self.file_info@.len(),
+                    forall|i: int| 0 <= i < self.file_info@.len() ==> (#[trigger] self.file_info@[i]).cas_hash != zero_hash(),
+                decreases self.file_info@.len() - vx_n2,
+//@ before `{ let mut vx_n2`
+            proof {
+                assert forall|i: int| 0 <= i < self.file_info@.len() implies (#[trigger] self.file_info@[i]).cas_hash != zero_hash() by {
+                    assert(patched(fi0[i], self.file_info@[i], xorb_hash));
+                    if fi0[i].cas_hash == zero_hash() {
+                        let j = choose|j: int| 0 <= j < ire0.len() && #[trigger] ire0[j] == i;
+                        assert(self.file_info@[ire0[j] as int].cas_hash == xorb_hash);
+                    }
+                }
+            }
+//@ before `self.new_data.clear();`
+        proof {
+            lemma_sum_len_subrange(nd0, 0, nd0.len() as int); assert(nd0.subrange(0, nd0.len() as int) =~= nd0);
+            lemma_cut_flatten(fi0, self.file_info@, nd0, xorb_hash);
+        }
+//@ before `new_xorb` #3
+        proof {
+            assert(hashes(self.new_data@) =~= Seq::<MerkleHash>::empty());
+            assert(sum_len(Seq::<MerkleHash>::empty()) == 0);
+        }
+//@ end
+
+//@ extract deduplication/src/file_deduplication.rs in `impl<DataInterfaceType: DeduplicationDataInterface> FileDeduper<DataInterfaceType>` fn process_chunks
+//@ ret r
+//@ rules R4b
+//@ subst `= &deduped_blocks[local_chunk_index] { local_chunk_index += n_deduped;` => `= &deduped_blocks[local_chunk_index] { local_chunk_index += *n_deduped;` :: explicit deref of the `&usize` pattern binding: `usize += &usize` is std's forwarding impl of `usize += usize` on the dereferenced value, and vstd specifies only the latter
+//@ subst `Vec::from_iter(chunks.iter().map(|c| c.hash))` => `vx_chunk_hashes(chunks)` :: R7 outline of an iterator chain (projection to the chunk hashes)
+//@ subst `self.chunk_hashes.extend(chunks.iter().map(|c| (c.hash, c.data.len())));` => `vx_extend_hash_len(&mut self.chunk_hashes, chunks);` :: R7 outline of an iterator chain (appends the (hash, len) projection)
+//@ contract
+        requires
+            old(self).wf(), chunks_ok(chunks@),
+            // configuration: no chunk is longer than a xorb may be (the chunker's maximum is below MAX_XORB_BYTES)
+            forall|i: int| 0 <= i < chunks@.len() ==> (#[trigger] chunks@[i]).data@.len() <= spec_MAX_XORB_BYTES(),
+            // the file's chunk count and byte size fit usize
+            old(self).chunk_hashes@.len() + chunks@.len() + old(self).min_spacing_between_global_dedup_queries <= usize::MAX,
+            sum_len(ch_hashes(old(self).chunk_hashes@)) + sum_len(hashes(chunks@)) <= usize::MAX,
+        ensures
+            match r {
+                Ok(m) => final(self).wf()
+                    && /*@C03*/ final(self).chunk_hashes@ == old(self).chunk_hashes@ + hl_view(chunks@)
+                    && /*@C14*/ metrics_ok(m, hashes(chunks@))
+                    && /*@C14*/ m.xorb_bytes_uploaded == 0 && m.shard_bytes_uploaded == 0 && m.total_bytes_uploaded == 0
+                    && /*@C14*/ metrics_sum(old(self).deduplication_metrics, m, final(self).deduplication_metrics),
+                Err(_) => true,
+            },
+//@ after `let chunk_hashes = vx_chunk_hashes(chunks);`
+        let ghost hs = hashes(chunks@);
+        let ghost done0 = ch_hashes(self.chunk_hashes@);
+        proof { lemma_sum_len_subrange(hs, 0, 0); assert(sum_len(hs.subrange(0, 0)) == 0) by { assert(hs.subrange(0, 0) =~= Seq::<MerkleHash>::empty()); } }
+//@ loop 1
+            invariant
+                vx_n1 <= 2, vx_arr1@ == seq![true, false],
+                hs == hashes(chunks@), chunk_hashes@ == hs, deduped_blocks@.len() == chunks@.len(), answers_ok(deduped_blocks@, hs),
+                self.wf(), self.chunk_hashes == old(self).chunk_hashes, self.deduplication_metrics == old(self).deduplication_metrics,
+                self.min_spacing_between_global_dedup_queries == old(self).min_spacing_between_global_dedup_queries,
+                global_chunk_index_start == self.chunk_hashes@.len(),
+                global_chunk_index_start + chunks@.len() + self.min_spacing_between_global_dedup_queries <= usize::MAX,
+                dedup_metrics.total_bytes == 0, dedup_metrics.deduped_bytes == 0, dedup_metrics.new_bytes == 0, dedup_metrics.defrag_prevented_dedup_bytes == 0,
+                dedup_metrics.total_chunks == 0, dedup_metrics.deduped_chunks == 0, dedup_metrics.new_chunks == 0, dedup_metrics.defrag_prevented_dedup_chunks == 0,
+                dedup_metrics.xorb_bytes_uploaded == 0, dedup_metrics.shard_bytes_uploaded == 0, dedup_metrics.total_bytes_uploaded == 0,
+                dedup_metrics.deduped_chunks_by_global_dedup <= chunks@.len(), dedup_metrics.deduped_bytes_by_global_dedup <= sum_len(hs),
+                vx_n1 <= 1 ==> dedup_metrics.deduped_chunks_by_global_dedup == 0 && dedup_metrics.deduped_bytes_by_global_dedup == 0,
+                sum_len(hs) <= usize::MAX,
+            decreases 2 - vx_n1,
+//@ loop 2
+                invariant
+                    vx_n1 <= 2, first_pass == (vx_n1 == 1),
+                    local_chunk_index <= chunks@.len(),
+                    hs == hashes(chunks@), chunk_hashes@ == hs, deduped_blocks@.len() == chunks@.len(), answers_ok(deduped_blocks@, hs),
+                    self.wf(), self.chunk_hashes == old(self).chunk_hashes, self.deduplication_metrics == old(self).deduplication_metrics,
+                    self.min_spacing_between_global_dedup_queries == old(self).min_spacing_between_global_dedup_queries,
+                    global_chunk_index_start == self.chunk_hashes@.len(),
+                    global_chunk_index_start + chunks@.len() + self.min_spacing_between_global_dedup_queries <= usize::MAX,
+                    dedup_metrics.total_bytes == 0, dedup_metrics.deduped_bytes == 0, dedup_metrics.new_bytes == 0, dedup_metrics.defrag_prevented_dedup_bytes == 0,
+                    dedup_metrics.total_chunks == 0, dedup_metrics.deduped_chunks == 0, dedup_metrics.new_chunks == 0, dedup_metrics.defrag_prevented_dedup_chunks == 0,
+                    dedup_metrics.xorb_bytes_uploaded == 0, dedup_metrics.shard_bytes_uploaded == 0, dedup_metrics.total_bytes_uploaded == 0,
+                    first_pass ==> dedup_metrics.deduped_chunks_by_global_dedup == 0 && dedup_metrics.deduped_bytes_by_global_dedup == 0,
+                    dedup_metrics.deduped_chunks_by_global_dedup <= local_chunk_index,
+                    dedup_metrics.deduped_bytes_by_global_dedup <= sum_len(hs.subrange(0, local_chunk_index as int)),
+                    sum_len(hs) <= usize::MAX,
+                decreases chunks@.len() - local_chunk_index,
+//@ before `let global_chunk_index = global_chunk_index_start + local_chunk_index;`
+                let ghost lci = local_chunk_index as int;
+                proof { lemma_sum_len_subrange(hs, 0, lci); lemma_sum_len_subrange(hs, 0, hs.len() as int); assert(hs.subrange(0, hs.len() as int) =~= hs); }
+//@ before `local_chunk_index += *n_deduped;`
+                    proof {
+                        let q = hs.subrange(lci, hs.len() as int);
+                        assert(match deduped_blocks@[lci] { Some((n, fse)) => truthful(q, n as int, fse), None => true });
+                        lemma_sum_len_split(hs, 0, lci, lci + *n_deduped);
+                        lemma_sum_len_subrange(hs, 0, lci + *n_deduped);
+                    }
+//@ before `if !first_pass {`
+                    proof {
+                        let q = hs.subrange(lci, hs.len() as int);
+                        assert(q.subrange(0, n_deduped as int) =~= hs.subrange(lci, lci + n_deduped));
+                        lemma_sum_len_split(hs, 0, lci, lci + n_deduped);
+                        lemma_sum_len_subrange(hs, 0, lci + n_deduped);
+                    }
+//@ before `local_chunk_index += 1;`
+                    proof { lemma_sum_len_split(hs, 0, lci, lci + 1); lemma_sum_len_subrange(hs, 0, lci + 1); }
+//@ before `let new_shards_added`
+            proof { assert(hs.subrange(0, hs.len() as int) =~= hs); }
+//@ loop 3
+            invariant
+                cur_idx <= chunks@.len(), defrag_prevented_until <= chunks@.len(),
+                hs == hashes(chunks@), chunk_hashes@ == hs, chunks_ok(chunks@), deduped_blocks@.len() == chunks@.len(), answers_ok(deduped_blocks@, hs),
+                forall|i: int| 0 <= i < chunks@.len() ==> (#[trigger] chunks@[i]).data@.len() <= spec_MAX_XORB_BYTES(),
+                self.istruct(),
+                /*@C01*/ self.den() == done0 + hs.subrange(0, cur_idx as int),
+                done0 == ch_hashes(old(self).chunk_hashes@),
+                self.chunk_hashes == old(self).chunk_hashes, self.deduplication_metrics == old(self).deduplication_metrics,
+                old(self).wf(),
+                sum_len(done0) + sum_len(hs) <= usize::MAX, old(self).chunk_hashes@.len() + chunks@.len() <= usize::MAX,
+                /*@C14*/ dedup_metrics.total_chunks == cur_idx,
+                /*@C14*/ dedup_metrics.total_bytes == sum_len(hs.subrange(0, cur_idx as int)),
+                /*@C14*/ dedup_metrics.new_bytes + dedup_metrics.deduped_bytes == dedup_metrics.total_bytes,
+                /*@C14*/ dedup_metrics.new_chunks + dedup_metrics.deduped_chunks == dedup_metrics.total_chunks,
+                /*@C14*/ dedup_metrics.defrag_prevented_dedup_bytes <= dedup_metrics.new_bytes,
+                /*@C14*/ dedup_metrics.defrag_prevented_dedup_chunks <= dedup_metrics.new_chunks,
+                dedup_metrics.xorb_bytes_uploaded == 0, dedup_metrics.shard_bytes_uploaded == 0, dedup_metrics.total_bytes_uploaded == 0,
+                dedup_metrics.deduped_chunks_by_global_dedup <= chunks@.len(), dedup_metrics.deduped_bytes_by_global_dedup <= sum_len(hs),
+            decreases chunks@.len() - cur_idx,
+//@ before `let mut dedupe_query = deduped_blocks[cur_idx].take();`
+            let ghost ci = cur_idx as int;
+            let ghost q = hs.subrange(ci, hs.len() as int);
+            let ghost stored = deduped_blocks@[ci]; let ghost d0 = deduped_blocks@;
+            proof {
+                lemma_sum_len_subrange(hs, 0, ci); lemma_sum_len_subrange(hs, 0, hs.len() as int); assert(hs.subrange(0, hs.len() as int) =~= hs);
+                lemma_sum_len_subrange(done0, 0, done0.len() as int);
+            }
+//@ before `if let Some((n_deduped, fse)) = dedupe_query {`
+            proof {
+                assert(answers_ok(deduped_blocks@, hs)) by {
+                    assert forall|i: int| 0 <= i < deduped_blocks@.len() implies match #[trigger] deduped_blocks@[i] { Some((n, fse)) => truthful(hs.subrange(i, hs.len() as int), n as int, fse), None => true } by {
+                        if i != ci { assert(deduped_blocks@[i] == d0[i]); }
+                    }
+                }
+            }
+            let ghost nd_q = hashes(self.new_data@);
+//@ before `if self.file_data_sequence_continues_current(&fse)`
+                proof {
+                    // whichever source answered: the answer denotes the next n_deduped fed chunks
+                    assert(seg_ok(fse, nd_q) && seg_den(fse, nd_q) == q.subrange(0, n_deduped as int) && 1 <= n_deduped <= q.len()) by {
+                        if stored.is_some() { assert(truthful(q, n_deduped as int, fse)); }
+                    }
+                    assert(q.subrange(0, n_deduped as int) =~= hs.subrange(ci, ci + n_deduped));
+                    lemma_sum_len_split(hs, 0, ci, ci + n_deduped);
+                    lemma_sum_len_subrange(hs, 0, ci + n_deduped);
+                }
+//@ before `cur_idx += n_deduped;`
+                    proof { assert((done0 + hs.subrange(0, ci)) + hs.subrange(ci, ci + n_deduped) =~= done0 + hs.subrange(0, ci + n_deduped)); }
+//@ before `let n_bytes = chunks[cur_idx].data.len();`
+            proof {
+                lemma_sum_len_split(hs, 0, ci, ci + 1); lemma_sum_len_one(hs, ci); lemma_sum_len_subrange(hs, 0, ci + 1);
+                assert(hs[ci] == chunks@[ci].hash); assert(chunk_ok(chunks@[ci]));
+            }
+//@ before `if !self.file_info.is_empty()`
+            let ghost fi_b = self.file_info@; let ghost nd_b = hashes(self.new_data@); let ghost ire_b = self.internally_referencing_entries@; let ghost lk_b = self.new_data_hash_lookup@;
+            let ghost h = chunks@[ci].hash;
+            proof {
+                assert(self.new_data_size + n_bytes <= spec_MAX_XORB_BYTES() && self.new_data@.len() + 1 <= spec_MAX_XORB_CHUNKS());
+                assert(self.den() == done0 + hs.subrange(0, ci));
+            }
+//@ before `let last_entry = self.file_info.last_mut().unwrap();`
+                proof { lemma_new_chunk_extend(fi_b, nd_b, h); }
+//@ before `self.defrag_tracker.increment_last_range_in_fragmentation_estimate(1);`
+                proof {
+                    assert(self.file_info@ =~= fi_b.update(fi_b.len() - 1, grown(fi_b.last(), h)));
+                    lemma_ire_update(ire_b, fi_b, fi_b.len() - 1, grown(fi_b.last(), h));
+                }
+//@ before `self.defrag_tracker.add_range_to_fragmentation_estimate(1);`
+                proof {
+                    lemma_new_chunk_push(fi_b, nd_b, h, self.file_info@.last());
+                    lemma_ire_push(ire_b, fi_b, self.file_info@.last());
+                    assert(self.file_info@ =~= fi_b.push(self.file_info@.last()));
+                }
+//@ before `cur_idx += 1;`
+            proof {
+                lemma_sum_len_push(nd_b, h);
+                lemma_lookup_insert(lk_b, nd_b, h);
+                assert(hashes(self.new_data@) =~= nd_b.push(h));
+                assert((done0 + hs.subrange(0, ci)).push(h) =~= done0 + hs.subrange(0, ci + 1));
+            }
+//@ before `self.deduplication_metrics.merge_in(&dedup_metrics);`
+        proof {
+            assert(hs.subrange(0, hs.len() as int) =~= hs);
+            lemma_sum_len_append(done0, hs);
+        }
+//@ before `Ok(dedup_metrics)`
+        proof {
+            assert(ch_hashes(self.chunk_hashes@) =~= done0 + hs);
+            assert forall|i: int| 0 <= i < self.chunk_hashes@.len() implies (#[trigger] self.chunk_hashes@[i]).1 == len_of(self.chunk_hashes@[i].0) by {
+                if i >= old(self).chunk_hashes@.len() { assert(chunk_ok(chunks@[i - old(self).chunk_hashes@.len()])); }
+            }
+        }
 //@ end
 }
 
